@@ -163,7 +163,7 @@ func checkC03(c *Ctx, r *Report) {
 		{"*mqtt.PubrecPacket", "none", "Pubrec"},
 		{"*mqtt.PubcompPacket", "none", "Pubcomp"},
 		{"*mqtt.UnsubackPacket", "none", "Unsuback"},
-		{"*mqtt.SubackPacket", "*gateway.subscribeTransaction", "Suback"},
+		{"*mqtt.SubackPacket", c.gwSubscribeTx(), "Suback"},
 		{"*mqtt.PingrespPacket", "none", "Pingresp"},
 	}
 	for _, t := range mqTable {
